@@ -7,10 +7,10 @@
      modelled on integer-valued components small enough for the sums to be exact
      (|x| <= 2^20, <= 70 components): the sums are computed in Z, the remaining f64
      operations with Coq.Floats.SpecFloat at prec 53 / emax 1024;
-   * keys are compared by Value::compare_for_sort (as of commit 34f5e9d): Null = Null,
+   * keys are compared by Value::compare_for_sort (as of commit 26fae1f): Null = Null,
      Null < every non-Null value, otherwise compare(..).unwrap_or(Equal) -- so a NaN key still
      compares Equal to every float (not transitive; NaN cannot arise from the integer-valued
-     tables of the correspondence).  Before 34f5e9d a Null key compared Equal to EVERYTHING
+     tables of the correspondence).  Before 26fae1f a Null key compared Equal to EVERYTHING
      (finding F-C24-1, fixed);
    * no LIMIT: DynamicExecutor::Sort = `rows.sort_by(cmp)`, a stable sort.  For a
      comparison that is a total preorder every stable sort returns the same list; for an
@@ -21,7 +21,7 @@
      elements ([sort_modelled]);
    * LIMIT k: DynamicExecutor::TopK keeps a binary max-heap of k rows in a Vec: the first k
      rows are pushed, then sorted in DESCENDING order (a descending array is a max-heap);
-     every later row -- when k > 0 (the guard `else if heap_size > 0` of commit fec49c7;
+     every later row -- when k > 0 (the guard `else if heap_size > 0` of commit 1f0a068;
      before it LIMIT 0 indexed heap[0] of an empty Vec and panicked, finding F-C24-2, fixed) --
      that compares Less than heap[0] replaces it and is sifted down;
      at the end the heap is sorted ascending and the first k rows are returned. *)
